@@ -145,6 +145,11 @@ FwdRetention(S, S2, t0, t1) ==
   Chk("C14:forward-retention",
       \A nd \in NewDels(S, S2) : nd[2] \in DOMAIN S.subs =>
          In(S2.del[nd].exp, t0 + S.subs[nd[2]].mttl, t1 + S.subs[nd[2]].mttl))
+  \* C01: a forwarded copy that is born (nearly) expired is a lost message - the source delivery
+  \* has been retired and nothing will ever offer the copy
+  \cup Chk("C01:forwarded-copy-not-retained",
+      \A nd \in NewDels(S, S2) : nd[2] \in DOMAIN S.subs =>
+         S2.del[nd].exp >= t0 + S.subs[nd[2]].mttl)
 
 RestSame(S, S2, fields) == \A f \in fields : S2[f] = S[f]
 AllFields == {"topics", "subs", "msgs", "del", "snaps"}
@@ -631,6 +636,10 @@ VExpireSubs(S, e, S2) ==
   IF e.code # "OK" THEN VErr(S, e, S2) \cup {"C14:expire-failed"}
   ELSE
     Chk("C14:expired-before-ttl", \A s \in E : S.subs[s].exp <= e.t1)
+    \* C15: the expiry job leaves already-dead subscriptions alone (re-stamping their deletion time
+    \* would keep them younger than the pruning threshold for ever)
+    \cup Chk("C15:expire-touches-dead-subscription",
+        \A s \in DOMAIN S.subs : ~S.subs[s].live => (s \in DOMAIN S2.subs /\ S2.subs[s] = S.subs[s]))
     \cup Chk("C14:expire-over-batch", Cardinality(E) <= e.max)
     \cup Chk("C14:expire-progress", must # {} => E # {})
     \cup Chk("C14:expire-post",
